@@ -144,6 +144,34 @@ CLAIMS = {
              "predicate/unfiltered registrations (incl. address 0), CA scripts, the real MessageListener with real can.Message flag combinations.",
         technique="Lean 4 no-op / decision-logic theorems + induction over foreign frame sequences; correspondence; addressing oracle on both DLLs",
         design="§8 C05"),
+    'C02': dict(
+        text="Proof (Lean 4) about Model/Dll22.lean (the whole FD data link layer: FD.TP RTS/CTS/EOM/BAM, session pools, multi-PG): a message "
+             "of more than 60 bytes is refused exactly when no session number of its kind is free, and then nothing is emitted and the state "
+             "is EQUAL; an accepted one takes exactly one free number (other flags unchanged, pool size kept); NO received frame of any kind "
+             "changes either pool (inbound never consumes outbound capacity); the advertised capacity is the reflected 8 + 4.  Partial: "
+             "exactly-once byte-identical delivery of concurrent sessions is not yet a Lean theorem for J1939-22 — it is established by the "
+             "lock-step correspondence of the model with j1939_22.py (nominal, hostile, lossy scripts with table dumps) and by the network "
+             "oracle on 2-3 real stacks (up to 10 + 5 sessions per originator, residues mod 60, windows 1..255).",
+        note="Proved/validated for the code as repaired by fix commits D5+D3, D22, D2, D24, D4, D23b (known_findings.json). Trusted: Lean kernel; "
+             "numpy chunking modelled as 60-byte chunks (differential-tested); handler atomicity (latency > 0 as the property states).",
+        technique="Lean 4 theorems over a hand model of j1939_22.py with regenerated leaves; lock-step correspondence; network oracle on real stacks",
+        design="§8 C02"),
+    'C11': dict(
+        text="Proof (Lean 4): the reflected FD length table maps every size 0..64 to the next legal CAN FD length; every multi-PG frame the "
+             "model builds has a legal length <= 64 whenever the groups fit; the buffer invariant fill = sum(4 + len) <= 64 is preserved by "
+             "placing a group of <= 60 bytes (induction over the first-fit search); buffers are keyed by (format, counter, source, destination) "
+             "injectively, so groups of different destinations or formats never share a frame; unpack(pack(groups) ++ padding) delivers every "
+             "group of 1..60 bytes once, in order, with its own 18-bit PGN and identical bytes, for EVERY list of groups (induction) and the "
+             "padding the builder appends (three zero bytes then 0xAA) is skipped; a placed group sits in exactly one buffer whose deadline is "
+             "<= its own and the thread is woken unless that buffer already had an earlier deadline; the pass sends every due buffer and asks "
+             "to be woken no later than any remaining deadline.  Partial: the composition of these steps over the thread's sleep/wake schedule "
+             "('on the bus no later than the limit plus scheduling latency') is checked by the oracle on real stacks, not one Lean theorem.",
+        note="Proved for the code as repaired by fix D6 (wake-up on a new/earlier deadline). Tie: header arithmetic and buffer keys are "
+             "regenerated from j1939_22.py; packing/first-fit/serving/unpacking in Model/Dll22.lean tied by lock-step correspondence on "
+             "multi-PG scripts; oracle with an independent decoder on every bus frame incl. FBFF, timer-callback submission, gaps around the "
+             "5 s idle wake-up.",
+        technique="Lean 4 list induction + decide over the reflected DLC table + first-fit loop induction; lock-step correspondence; reference-decoder oracle",
+        design="§8 C11"),
 }
 
 NOT_YET = {}
